@@ -34,8 +34,17 @@ def eval_comp(case):
 
     g, T, cont, dry = case["gravity"], case["T"], case["cont"], case["dry"]
     pmax = case["pmax"]
-    tab = build_pvt_gas({"N2": cont[0], "H2S": cont[1], "CO2": cont[2], "Gas Specific Gravity": g,
-                         "Reservoir Temperature (deg F)": T}, dry, maximum_pressure=pmax)
+    vals = {"N2": cont[0], "H2S": cont[1], "CO2": cont[2], "Gas Specific Gravity": g,
+            "Reservoir Temperature (deg F)": T}
+    # history: the same process first builds neighbouring tables that differ in exactly one argument
+    # (a result cached under too coarse a key would now be served for the real call)
+    other = "wet gas" if dry == "dry gas" else "dry gas"
+    build_pvt_gas(dict(vals), other, maximum_pressure=pmax)
+    build_pvt_gas(dict(vals, **{"Gas Specific Gravity": g + 0.05}), dry, maximum_pressure=pmax)
+    build_pvt_gas(dict(vals, **{"Reservoir Temperature (deg F)": T + 25.0}), dry, maximum_pressure=pmax)
+    build_pvt_gas(dict(vals, N2=cont[0] + 0.02), dry, maximum_pressure=pmax)
+    build_pvt_gas(dict(vals), dry, maximum_pressure=pmax - 500.0)
+    tab = build_pvt_gas(dict(vals), dry, maximum_pressure=pmax)
     nh = gas.make_nonhydrocarbon_properties(*cont)
     tpc, ppc = gas.pseudocritical_point_Sutton(g, nh, dry)
     p = tab["pressure"].to_numpy()
